@@ -3682,7 +3682,12 @@ where
                         }
                         Some(track_offset) => {
                             // work-in-progress track has offset,
-                            // so deduct that offset from this index point's
+                            // so deduct that offset from this index point's,
+                            // which may not come before the track's first one
+
+                            if offset.into() < (*track_offset).into() {
+                                return Err(CuesheetError::IndexPointsOutOfSequence);
+                            }
 
                             cuesheet::Index {
                                 number,
